@@ -58,6 +58,12 @@ def build_pool(seed, n=60):
     pool.append({'src': 'SIZE = (n := 4) * 4\naddi x1, x0, SIZE\n', 'compress': False, 'dicts': True})
     pool.append({'src': 'M = n + 1\naddi x1, x0, M\n', 'compress': False, 'dicts': True})
     pool.append({'src': 'n = 9\naddi x2, x0, n\naddi x3, x0, [q := 5, q + 1][1]\n', 'compress': True, 'dicts': False})
+    # the same inside a comprehension / generator expression (there the bound name is stored where the comprehension's *enclosing*
+    # scope keeps its names); later programs that use such a name without defining it must keep failing
+    pool.append({'src': 'X = [(t := 5) for _ in [1]][0]\naddi x1, x0, X\n', 'compress': False, 'dicts': True})
+    pool.append({'src': 'addi x1, x0, t\n', 'compress': False, 'dicts': True})
+    pool.append({'src': 'Y = sum((u := k) for k in [1, 2])\nZ = max([w := 7, 1])\naddi x2, x0, Y + Z\n', 'compress': True, 'dicts': False})
+    pool.append({'src': 'addi x3, x0, u + w\n', 'compress': False, 'dicts': False})
     # every label-moving step at least once (short li, near call, compression, align), four labels, run with a left-over table
     for k in range(2):
         pool.append({'src': 'A0:\nli x5, 1\nA1:\naddi x8, x8, 1\nA2:\ncall A0\nbytes 1 2\nalign 8\nA3:\nj A1\nbeqz x8, A3\ntail A2\nli x6, A2\ndw A3\ndw A1\n',
